@@ -135,7 +135,7 @@ def _in_subtree(node, root):
 
 def d1_progress(ctx, idx):
     r = ctx.rule('D1.PROGRESS', 'a round of the dependency loop that makes no progress ends in raise ConfigError; the flag is '
-                 'reset every round and set only when a pending dependent was removed', floor=4)
+                 'reset every round and set only when a pending dependent was removed', floor=5)
     with r:
         fi = idx.func(GSS)
         cfg = cfg_of(fi.node)
@@ -158,17 +158,39 @@ def d1_progress(ctx, idx):
                 if flag is not None and any((_const_assign(x, True) or _const_assign(x, False)) and x.targets[0].id == flag
                                             for x in walk_own(fi.node)):
                     tests.append((s, flag, edge))
-        if len(tests) != 1:
-            raise AnalysisError('gen_symbols_samples: expected one test of a progress flag inside the loop, found %d' % len(tests))
-        tstmt, flag, noprog_edge = tests[0]
+        # the end-of-round test is the one that is not inside a loop nested in the while
+        round_tests = [t for t in tests if X.enclosing_loop(t[0]) is w]
+        if len(round_tests) != 1:
+            raise AnalysisError('gen_symbols_samples: expected one end-of-round test of a progress flag, found %d' % len(round_tests))
+        tstmt, flag, noprog_edge = round_tests[0]
         tnode = [n for n in cfg.nodes_of(tstmt) if n.kind == 'test'][0]
         in_loop = [n for n in cfg.nodes if n.ast is not None and n.kind == 'stmt' and _in_subtree(n.ast, w)]
-        resets = [n for n in in_loop if _const_assign(n.ast, False) and n.ast.targets[0].id == flag]
-        sets = [n for n in in_loop if _const_assign(n.ast, True) and n.ast.targets[0].id == flag]
-        other_writes = [n for n in in_loop if isinstance(n.ast, (ast.Assign, ast.AugAssign)) and n not in resets and n not in sets
-                        and any(isinstance(t, ast.Name) and t.id == flag and isinstance(t.ctx, ast.Store) for t in ast.walk(n.ast))]
-        if other_writes:
-            raise AnalysisError('progress flag %s is written by `%s`' % (flag, short(other_writes[0].ast)))
+        writes = [n for n in in_loop if isinstance(n.ast, (ast.Assign, ast.AugAssign))
+                  and any(isinstance(t, ast.Name) and t.id == flag and isinstance(t.ctx, ast.Store) for t in ast.walk(n.ast))]
+        resets, sets, accum, lossy = [], [], [], []
+        for n in writes:
+            nested = X.enclosing_loop(n.ast) is not w            # inside the loop over the pending dependents
+            if _const_assign(n.ast, True):
+                sets.append(n)
+            elif _const_assign(n.ast, False):
+                (lossy if nested else resets).append(n)
+            elif (isinstance(n.ast, ast.AugAssign) and isinstance(n.ast.op, ast.BitOr)) or (
+                    isinstance(n.ast, ast.Assign) and isinstance(nf.canon(n.ast.value), ast.BoolOp)
+                    and isinstance(nf.canon(n.ast.value).op, ast.Or)
+                    and any(X.is_name(v, flag) for v in nf.canon(n.ast.value).values)):
+                accum.append(n)
+            elif nested and isinstance(n.ast, ast.Assign) and len(n.ast.targets) == 1:
+                lossy.append(n)
+            else:
+                raise AnalysisError('progress flag %s is written by `%s`' % (flag, short(n.ast)))
+        construct = 'gen_symbols_samples: progress recorded for one dependent is kept until the end of the round'
+        if lossy:
+            r.violation(construct, '`%s` inside the loop over the pending dependents overwrites the flag with a possibly-false value: the '
+                        'progress of an earlier dependent in the same pass is forgotten, so the flag only tells whether the LAST dependent '
+                        'visited was resolvable and valid acyclic configurations are reported as circular' % short(lossy[0].ast),
+                        lib.loc(fi, lossy[0].ast), expected='%s = True (or an `or`-accumulation)' % flag)
+        else:
+            r.ok(construct, 'every store inside the inner loop is the constant True or an or-accumulation', lib.loc(fi, w))
         removals = [n for n in in_loop if _removes_from(n.ast, pending)]
         where = lib.loc(fi, tstmt)
         # (a) reset every round
@@ -179,7 +201,10 @@ def d1_progress(ctx, idx):
                 'stays true, a later round without progress is not noticed and the loop spins forever on a circular or '
                 'undefined dependency' % flag, lib.loc(fi, w), expected='%s = False at the start of every round' % flag)
         # (b) set only after a removal from the pending dict
-        if not sets:
+        if lossy or accum:
+            r.undecided('gen_symbols_samples: %s is set only where a pending dependent was removed' % flag,
+                        'the flag is not set by constant stores; not analysed', where) if accum and not lossy else None
+        elif not sets:
             X.absent(r, 'gen_symbols_samples: %s is set when a dependent was computed' % flag,
                      'the flag is never set inside the loop: every round counts as "no progress", so valid dependency '
                      'chains are reported as circular', where)
@@ -391,20 +416,40 @@ def d2_keys(ctx, idx):
         construct_w = 'gen_symbols_samples: the pending dict holds exactly the DependentSampler symbols with their depends'
         if len(wdefs) != 1:
             raise AnalysisError('definition of the pending dict not unique')
-        cw = _comp_over(wdefs[0].value, {'symbols'})
+        def subset_polarity(name):
+            """+1 / -1 if `name` is the list of (non-)DependentSampler symbols, 0 if it is all symbols, None if unknown."""
+            if name == 'symbols':
+                return 0
+            ds_ = A.assigns(name)
+            if len(ds_) != 1:
+                return None
+            c_ = _comp_over(ds_[0].value, {'symbols'})
+            if c_ is None or isinstance(c_[0], ast.DictComp) or not X.is_name(c_[0].elt, c_[1]) or len(c_[2]) != 1:
+                return None
+            return _is_dependent_test(c_[2][0], c_[1]) or None
+        cands = {'symbols'} | {n for n in (x.id for x in ast.walk(wdefs[0].value) if isinstance(x, ast.Name)) if subset_polarity(n) in (1, -1)}
+        cw = _comp_over(wdefs[0].value, cands)
         if cw is None or not isinstance(cw[0], ast.DictComp):
             r.undecided(construct_w, 'definition not recognised: %s' % short(wdefs[0].value), lib.loc(fi, wdefs[0]))
         else:
-            comp, key, ifs, _ = cw
+            comp, key, ifs, srcname = cw
+            base = subset_polarity(srcname)
             pol = [_is_dependent_test(t, key) for t in ifs]
             valok = X.is_name(comp.key, key) and X.m("sample_from[%s].config['depends']" % key, comp.value) is not None
-            if len(ifs) == 1 and pol == [1] and valok and X.in_subtree(wdefs[0], A.sample_loop):
+            eff = None            # effective selection: +1 dependents, -1 independents, 0 everything
+            if base == 0 and len(ifs) == 1 and pol[0] in (1, -1):
+                eff = pol[0]
+            elif base == 0 and not ifs:
+                eff = 0
+            elif base in (1, -1) and not ifs:
+                eff = base
+            if eff == 1 and valok and X.in_subtree(wdefs[0], A.sample_loop):
                 r.ok(construct_w, short(wdefs[0].value, 90), lib.loc(fi, wdefs[0]))
-            elif len(ifs) == 1 and pol == [-1]:
-                r.violation(construct_w, 'the filter is negated: the independent symbols are treated as pending dependents', lib.loc(fi, wdefs[0]))
-            elif not ifs:
+            elif eff == -1:
+                r.violation(construct_w, 'the selection is negated: the independent symbols are treated as pending dependents', lib.loc(fi, wdefs[0]))
+            elif eff == 0:
                 r.violation(construct_w, 'no filter: every symbol is treated as a dependent', lib.loc(fi, wdefs[0]))
-            elif not X.in_subtree(wdefs[0], A.sample_loop):
+            elif eff == 1 and valok and not X.in_subtree(wdefs[0], A.sample_loop):
                 r.violation(construct_w, 'the pending dict is built once outside the sample loop: after the first sample it is empty and '
                             'later samples contain no dependents', lib.loc(fi, wdefs[0]))
             else:
@@ -427,13 +472,20 @@ def d2_keys(ctx, idx):
         else:
             shape_ok = False
         st = lib.enclosing_stmt(g)
+        loop_form = False
+        lp = X.enclosing_loop(st)
+        if not shape_ok and isinstance(lp, ast.For) and lp is not A.sample_loop and isinstance(lp.target, ast.Name) \
+                and isinstance(lp.iter, ast.Name) and X.m(X.spat("%s[%s] = sample_from[%s].gen_sample()" % (A.D, lp.target.id, lp.target.id)), st) is not None:
+            shape_ok = loop_form = True
+            I = lp.iter.id
+            st = lp
         if not shape_ok:
             r.undecided(construct, 'draw not recognised: %s' % short(st), lib.loc(fi, st))
         elif not X.in_subtree(st, A.sample_loop):
             r.violation(construct, 'gen_sample() is called outside the per-sample loop: all samples share one draw per variable '
                         '(a wrong answer that happens to agree at that point is accepted)', lib.loc(fi, st))
         else:
-            into = X.m(X.spat("%s.update(_X)" % A.D), st) is not None and X.in_subtree(g, st)
+            into = loop_form or (X.m(X.spat("%s.update(_X)" % A.D), st) is not None and X.in_subtree(g, st))
             if not into:
                 # the dict of draws may be bound to a name first
                 if isinstance(st, ast.Assign) and len(st.targets) == 1 and isinstance(st.targets[0], ast.Name):
@@ -1283,6 +1335,8 @@ MUTANTS = [
     Mutant('flag-reset-once', SAMPLING, "        while unevaluated_dependents:\n            progress_made = False\n", "        progress_made = False\n        while unevaluated_dependents:\n", 'D1'),
     Mutant('flag-set-without-progress', SAMPLING, "                    del unevaluated_dependents[symbol]\n                    progress_made = True\n",
            "                    del unevaluated_dependents[symbol]\n                progress_made = True\n", 'D1'),
+    Mutant('flag-overwritten-per-dependent', SAMPLING, "                if is_subset(dependencies, sample_dict):\n                    sample_dict[symbol] = sample_from[symbol].compute_sample(\n                        sample_dict, functions, suffixes)\n                    del unevaluated_dependents[symbol]\n                    progress_made = True\n",
+           "                progress_made = is_subset(dependencies, sample_dict)\n                if progress_made:\n                    sample_dict[symbol] = sample_from[symbol].compute_sample(\n                        sample_dict, functions, suffixes)\n                    del unevaluated_dependents[symbol]\n", 'D1'),
     Mutant('dependent-not-removed', SAMPLING, "                    del unevaluated_dependents[symbol]\n", "", 'D1'),
     Mutant('circular-error-class', SAMPLING, "                raise ConfigError(\"Circularly dependent DependentSamplers detected: \" +", "                raise ValueError(\"Circularly dependent DependentSamplers detected: \" +", 'D1'),
     Mutant('constants-not-pruned', SAMPLING, "    pruned_constants = {sym: constants[sym] for sym in constants if sym not in symbols}", "    pruned_constants = dict(constants)", 'D2'),
